@@ -33,7 +33,10 @@ Definition P_block (t h : Z) (s s' : state) (l : list hook) : Prop :=
 Fixpoint P_trace (s : state) (tr : list (op * out)) : Prop :=
   match tr with
   | [] => True
-  | (Block t h, o) :: r => P_block t h s (o_infos o) (o_hooks o) /\ P_trace (o_infos o) r
+  | (Block t h, o) :: r =>
+      (* a committed block satisfies the per-block property; a block aborted by a panicking hook commits nothing *)
+      (if o_ok o then P_block t h s (o_infos o) (o_hooks o) else o_infos o = s /\ o_hooks o = []) /\
+      P_trace (o_infos o) r
   | (Add _ _ _, o) :: r => P_trace (o_infos o) r
   end.
 
@@ -127,7 +130,10 @@ Definition Pb_block (t h : Z) (s s' : state) (l : list hook) : bool :=
 Fixpoint Pb_trace (s : state) (tr : list (op * out)) : bool :=
   match tr with
   | [] => true
-  | (Block t h, o) :: r => Pb_block t h s (o_infos o) (o_hooks o) && Pb_trace (o_infos o) r
+  | (Block t h, o) :: r =>
+      (if o_ok o then Pb_block t h s (o_infos o) (o_hooks o)
+       else list_eqb einfo_eqb (o_infos o) s && match o_hooks o with [] => true | _ => false end) &&
+      Pb_trace (o_infos o) r
   | (Add _ _ _, o) :: r => Pb_trace (o_infos o) r
   end.
 
@@ -220,6 +226,10 @@ Lemma Pb_trace_sound tr : forall s, Pb_trace s tr = true -> P_trace s tr.
 Proof.
   induction tr as [|[o x] r IH]; intros s H; simpl in *; [exact I|].
   destruct o as [t h|ct ch a].
-  - apply andb_true_iff in H. destruct H as [H1 H2]. split; [apply Pb_block_sound; exact H1|apply IH; exact H2].
+  - apply andb_true_iff in H. destruct H as [H1 H2]. split; [|apply IH; exact H2].
+    destruct (o_ok x); [apply Pb_block_sound; exact H1|].
+    apply andb_true_iff in H1. destruct H1 as [A B]. split.
+    + apply (list_eqb_eq einfo_eqb einfo_eqb_eq). exact A.
+    + destruct (o_hooks x); [reflexivity|discriminate].
   - apply IH. exact H.
 Qed.
